@@ -184,7 +184,7 @@ func classes() []class {
 		// the first deep class again, with concurrent readers (file handles never evicted, see the probe below)
 		{name: "deep-thld1-concurrent", symLen: 4, block: func(s int) []byte {
 			return [][]byte{{0, 0, 0, 0}, {0x7f, 0, 0xff, 1}, {0xff, 0xff, 0xff, 0xff}}[s-1]
-		}, maxVal: 8, valSize: func(v int) int { return 1 + (v*5)%8 }, cache: 90, flushThld: 1, syncThld: 2, cleanup: 30,
+		}, maxVal: 8, valSize: func(v int) int { return 1 + (v*5)%8 }, cache: 90, flushThld: 1, syncThld: 1000, cleanup: 30,
 			maxBuffered: 1, fileSize: 64, flushBuf: 32, renew: 0, bg: true, maxOpen: 4000},
 	}
 }
@@ -520,7 +520,7 @@ func (r *run) startBG(h *snapH) {
 				return
 			}
 			atomic.AddInt64(&h.bgIter, 1)
-			time.Sleep(20 * time.Microsecond)
+			time.Sleep(200 * time.Microsecond)
 		}
 	}()
 }
